@@ -24,15 +24,20 @@ if cargo test --offline -q ${DEMO_FEATURES:+--features "$DEMO_FEATURES"} --test 
 git apply /tmp/seeded_$NAME.src.diff
 echo "   demo without change: $d0"
 if [ "$suite" != pass ] || [ "$d1" != fail ] || [ "$d0" != pass ]; then echo "NOT CONFIRMED: $NAME"; exit 3; fi
-echo "== 4. $PROP quick check against the change applied to /repo"
-[ -z "$(git -C /repo status --porcelain --untracked-files=no)" ] || { echo "repo dirty"; exit 2; }
-git -C /repo apply "$WT/patch.diff" || { echo "patch does not apply to /repo"; exit 2; }
-trap 'git -C /repo checkout -- .' EXIT
+echo "== 4. $PROP quick check against the change"
 cd /verif
 t0=$(date +%s)
-./check "$PROP" quick > /tmp/seeded_$NAME.check.log 2>&1; rc=$?
+if [ -n "${ALT:-}" ]; then
+    # isolated scratch copy of repository and machinery (does not touch /repo; see tools/alt_eval.sh)
+    tools/alt_eval.sh "$PROP" "$WT/patch.diff" quick > /tmp/seeded_$NAME.check.log 2>&1; rc=$?
+else
+    [ -z "$(git -C /repo status --porcelain --untracked-files=no)" ] || { echo "repo dirty"; exit 2; }
+    git -C /repo apply "$WT/patch.diff" || { echo "patch does not apply to /repo"; exit 2; }
+    trap 'git -C /repo checkout -- .' EXIT
+    ./check "$PROP" quick > /tmp/seeded_$NAME.check.log 2>&1; rc=$?
+    git -C /repo checkout -- .
+fi
 t1=$(date +%s)
-git -C /repo checkout -- .
 vline=$(grep -m1 '^VIOLATION' /tmp/seeded_$NAME.check.log || true)
 what=$(grep -m1 -E '^violation' /tmp/seeded_$NAME.check.log | cut -c1-400 || true)
 echo "   check exit $rc in $((t1-t0))s: ${vline:-no VIOLATION line}"
